@@ -129,6 +129,7 @@ type H struct {
 	journal  *os.File
 	cur      atomic.Pointer[curCase]
 	hangS    int
+	slow     map[string]bool
 }
 
 type curCase struct {
@@ -236,7 +237,7 @@ func (h *H) watchdog() {
 	for {
 		time.Sleep(500 * time.Millisecond)
 		cc := h.cur.Load()
-		if cc == nil || time.Since(cc.start) < time.Duration(h.hangS)*time.Second {
+		if cc == nil || time.Since(cc.start) < time.Duration(h.hangS)*time.Second || h.slow[cc.campaign] {
 			continue
 		}
 		f := &Failure{Key: "hang", Msg: fmt.Sprintf("case did not finish within %d s", h.hangS)}
@@ -248,6 +249,22 @@ func (h *H) watchdog() {
 		h.finish()
 		os.Exit(3)
 	}
+}
+
+// SlowCampaign exempts a campaign from the hang watchdog (its single case runs
+// a sub-process for minutes; the driver's own time limit still applies).
+func (h *H) SlowCampaign(name string) {
+	if h.slow == nil {
+		h.slow = map[string]bool{}
+	}
+	h.slow[name] = true
+}
+
+// skipped: VERIF_ONLY=<substring> (development aid) runs only the campaigns
+// whose name contains it.
+func (h *H) skipped(name string) bool {
+	only := os.Getenv("VERIF_ONLY")
+	return only != "" && !strings.Contains(name, only)
 }
 
 // Thorough says whether the thorough tier was requested.
@@ -457,7 +474,7 @@ func Rapid[C any](h *H, name string, n int, gen func(*rapid.T) C, check func(C, 
 		replayCase(h, name, check)
 		return
 	}
-	if n <= 0 {
+	if n <= 0 || h.skipped(name) {
 		return
 	}
 	h.campaign(name).Planned += int64(n)
@@ -496,6 +513,9 @@ func Rapid[C any](h *H, name string, n int, gen func(*rapid.T) C, check func(C, 
 func Enum[C any](h *H, name string, exhaustive bool, each func(yield func(C) bool), check func(C, *Info) *Failure) {
 	if h.replaying() {
 		replayCase(h, name, check)
+		return
+	}
+	if h.skipped(name) {
 		return
 	}
 	cs := h.campaign(name)
